@@ -12,12 +12,12 @@ def wfClass (es : List String) : String :=
   | [] => "wf"
   | e :: _ => "NOT-WF " ++ String.ofList (e.toList.map (fun c => if c.isDigit then 'N' else c))
 
-def runIR (irs : Sexp) (inputs : List (Nat × Val)) (lazyEval : Bool := false) : String :=
+def runIR (irs : Sexp) (inputs : List (Nat × Val)) (lazyEval : Bool := false) (fuel : Nat := 30000) : String :=
   match IR.parseModule irs with
   | none => "error[IR dump does not parse]"
   | some m =>
     let m := { m with lazyEval := lazyEval }
-    match IR.run m "main" (inputs.map (fun (p : Nat × Val) => ((0, p.1), p.2))) 30000 with
+    match IR.run m "main" (inputs.map (fun (p : Nat × Val) => ((0, p.1), p.2))) fuel with
     | .ok outs => toString ((outs.filter (fun (p : (Nat × Nat) × Val) => p.1.2 == 1)).map (fun p => Sem.wordsOf p.2))
     | .error (.unsupported wh) => "skip[" ++ wh ++ "]"
     | .error .fuel => "skip[fuel]"
@@ -64,8 +64,12 @@ def handle (line : String) : String :=
       else if rb.startsWith "error" then s!"{wf} | skip before-{rb}"
       else
         -- a module that uses unemitted expressions is still executed, evaluating them on demand
-        let ra := runIR a inputs (!wfa.isEmpty)
-        if ra.startsWith "skip" then s!"{wf} | skip after {ra}"
+        -- five times the step budget of the run before the pass: a pass may add steps, not multiply them
+        let ra := runIR a inputs (!wfa.isEmpty) 150000
+        -- the module before the pass finished within the step budget: running out of steps afterwards is a
+        -- behavioural difference (the pass made the program loop, or blew its step count up)
+        if ra == "skip[fuel]" then s!"{wf} | DISAGREE before={rb} after=does not terminate within the step budget"
+        else if ra.startsWith "skip" then s!"{wf} | skip after {ra}"
         else if ra == rb then s!"{wf} | agree {ra}"
         else s!"{wf} | DISAGREE before={rb} after={ra}"
   | _ => "bad-case line"
